@@ -76,6 +76,9 @@ public:
     stack_element& stack_top() {
         return stackq_.back();
     }
+    stack_element& stack_at(std::size_t level) {
+        return stackq_[level];
+    }
     void stack_pop() {
         return stackq_.pop_back();
     }
@@ -316,6 +319,55 @@ iscan_open(tree_instance* ti, std::string_view l_key, scan_endpoint l_end, std::
     return iscan_next(ctx, out, bnv_cb);
 }
 
+/**
+ * @brief Repair the saved layer roots of the cursor stack.
+ * @details The saved root of the layer on top of the stack is not valid any more: the layer root was
+ * split or collapsed, or the whole layer was removed. Walk down from the Masstree root along the link keys
+ * saved in the stack, refresh border / version / permutation of every level above the top and store the
+ * current root of the layer below it. If a link does not exist any more, the layers below it are gone:
+ * the stack is cut there and the scan continues after that link.
+ * @return false if the Masstree has no root.
+ */
+static bool iscan_reseek_layer_roots(iscan_context* ctx) {
+    for (;;) {
+        bool again{false};
+        for (std::size_t level = 0; level + 1 < ctx->stack_size(); ++level) {
+            auto& elem = ctx->stack_at(level);
+            if (level == 0) {
+                elem.layer_root = ctx->get_ti()->load_root_ptr();
+                if (elem.layer_root == nullptr) { return false; }
+            }
+            status check_status{};
+            auto border_node_and_v =
+                find_border(elem.layer_root, elem.key.get_key_slice(), elem.key.get_key_length(), check_status);
+            border_node* bn = std::get<0>(border_node_and_v);
+            if (check_status != status::OK || bn == nullptr) {
+                // this root was replaced meanwhile, too: start over from the Masstree root
+                again = true;
+                break;
+            }
+            node_version64_body v{};
+            std::size_t lv_pos{0};
+            link_or_value* lv = bn->get_lv_of(elem.key.get_key_slice(), elem.key.get_key_length(), v, lv_pos);
+            base_node* child{nullptr};
+            if (lv != nullptr && bn->get_key_length_at(lv_pos) > sizeof(key_slice_type)) {
+                child = lv->get_next_layer();
+            }
+            elem.bn = bn;
+            elem.bi.v_prev = v;
+            elem.bi.perm_prev.set_body(bn->get_permutation().get_body());
+            elem.bi.perm_rank = 0;
+            if (child == nullptr) {
+                // the link was removed, so nothing is left below it.
+                while (ctx->stack_size() > level + 1) { ctx->stack_pop(); }
+                return true;
+            }
+            ctx->stack_at(level + 1).layer_root = child;
+        }
+        if (!again) { return true; }
+    }
+}
+
 // find next key/value
 // returns
 // OK : found key/value. stored value to `out`
@@ -353,10 +405,11 @@ retry_from_root:
                 // mt root is deleted, so scan end
                 return status::OK_SCAN_END;
             }
-            // L1+
-            ctx->stack_pop();
-            st = &ctx->stack_top(); // sync alias
-            goto retry_from_root; // NOLINT
+            // L1+ : the layer root was removed (collapse of an interior root, or the whole layer).
+            // Popping the layer would lose the keys that are still stored in it, so look the
+            // current root up again through the link in the layer above.
+            if (!iscan_reseek_layer_roots(ctx)) { return status::OK_SCAN_END; }
+            goto next_layer; // NOLINT
         }
         if (!rv.get_root()) {
             // saved-root is now not root. split?
@@ -366,9 +419,9 @@ retry_from_root:
                 ctx->stack_top().layer_root = new_mt_root;
                 goto retry_from_root; // NOLINT
             }
-            ctx->stack_pop();
-            st = &ctx->stack_top(); // sync alias
-            goto next_layer; // NOLINT // or jump to entry point of this function
+            // L1+ : the layer root was split. The layer keeps its keys under a new root.
+            if (!iscan_reseek_layer_roots(ctx)) { return status::OK_SCAN_END; }
+            goto next_layer; // NOLINT
         }
         status check_status{};
         auto border_node_and_v =
